@@ -9,6 +9,7 @@ truncation to every coarser hierarchy and after merging per-dataset files.
 import contextlib
 import io
 import itertools
+import shutil
 import json
 import traceback
 
@@ -23,6 +24,7 @@ CASE_TIMEOUT = 300
 BATCH_SIZE = {'quick': 2, 'thorough': 6}
 REQUIRED_COUNTERS = ['stats_files_checked', 'cluster_gene_cells_checked',
                      'partition_pairs_compared', 'truncations_checked',
+                     'two_step_truncations', 'truncations_from_permuted_rows',
                      'merges_checked', 'boundary_cpm_equal_one_entries',
                      'unlabelled_cells']
 RULE = ('case = labelled reference matrix (clusters of one cell, unlabelled '
@@ -419,51 +421,87 @@ def run_case(spec, work):
                     ctx.V('C09:partition-dependent-sums',
                           f'{k} of {lf}: [{wa}] vs [{wb}]')
                     break
-    # truncation to every order-preserving proper sub-hierarchy
+    # truncation to every order-preserving proper sub-hierarchy, from the
+    # file as written, from a copy whose rows were permuted (the file's own
+    # cluster-to-row table is the only legitimate way to address a row), and
+    # in two steps (the output of a truncation is itself truncated)
     full = [o for o in outputs if o[2] != 'columns']
+
+    def check_trunc(src, out, new_h, what, tag='truncate'):
+        if out.exists():
+            out.unlink()
+        try:
+            truncate_precomputed_stats_file(
+                input_path=src, output_path=out, new_hierarchy=new_h)
+        except Exception:
+            tb = traceback.format_exc()
+            sig, last = oracles.exception_signature(tb)
+            ctx.V(f'C09:{tag}-raises:{sig}', f'{last}; {what}')
+            return False
+        got = read_stats(out)
+        ctx.bump('truncations_checked')
+        new_leaf = new_h[-1]
+        lab2 = [None if l is None else
+                model.ancestor(model.leaf_level, l, new_leaf)
+                for l in labels]
+        want2, _, _ = oracle_stats(X, raw, lab2,
+                                   model.nodes[new_leaf], is32)
+        compare_with_oracle(ctx, tag, got, want2, genes, tol, what)
+        if got['taxonomy_tree'].get('hierarchy') != new_h:
+            ctx.V(f'C09:{tag}:tree-hierarchy',
+                  f'{got["taxonomy_tree"].get("hierarchy")}; {what}')
+        else:
+            # structure of the truncated tree
+            for a_lv, b_lv in zip(new_h[:-1], new_h[1:]):
+                for node, kids in got['taxonomy_tree'][a_lv].items():
+                    exp = [c for c in model.nodes[b_lv]
+                           if model.ancestor(b_lv, c, a_lv) == node]
+                    if sorted(kids) != sorted(exp):
+                        ctx.V(f'C09:{tag}:tree-structure',
+                              f'{a_lv}/{node}: {kids} vs {exp}; '
+                              f'{what}')
+        return True
+
     if full and len(model.hierarchy) > 1:
         src_idx = [i for i, o in enumerate(outputs) if o[2] != 'columns'][0]
         src_path = work / f'stats_{src_idx}.h5'
+        # the same file with its rows in another order
+        perm_path = work / 'stats_permuted_rows.h5'
+        shutil.copy(src_path, perm_path)
+        with h5py.File(perm_path, 'a') as f:
+            c2r = json.loads(f['cluster_to_row'][()].decode())
+            n_rows = f['n_cells'].shape[0]
+            p = rng.permutation(n_rows)      # new row i holds old row p[i]
+            inv = np.argsort(p)
+            for k in ('n_cells', 'sum', 'sumsq', 'gt0', 'gt1', 'ge1'):
+                f[k][...] = f[k][()][p]
+            del f['cluster_to_row']
+            f.create_dataset(
+                'cluster_to_row',
+                data=json.dumps({c: int(inv[r])
+                                 for c, r in c2r.items()}).encode('utf-8'))
         h = model.hierarchy
         for r in range(1, len(h)):
             for sub in itertools.combinations(range(len(h)), r):
                 new_h = [h[i] for i in sub]
                 tp = work / 'trunc.h5'
-                if tp.exists():
-                    tp.unlink()
-                what = f'truncate {h} -> {new_h}'
-                try:
-                    truncate_precomputed_stats_file(
-                        input_path=src_path, output_path=tp,
-                        new_hierarchy=new_h)
-                except Exception:
-                    tb = traceback.format_exc()
-                    sig, last = oracles.exception_signature(tb)
-                    ctx.V(f'C09:truncate-raises:{sig}', f'{last}; {what}')
-                    continue
-                got = read_stats(tp)
-                ctx.bump('truncations_checked')
-                new_leaf = new_h[-1]
-                lab2 = [None if l is None else
-                        model.ancestor(model.leaf_level, l, new_leaf)
-                        for l in labels]
-                want2, _, _ = oracle_stats(X, raw, lab2,
-                                           model.nodes[new_leaf], is32)
-                compare_with_oracle(ctx, 'truncate', got, want2, genes,
-                                    tol, what)
-                if got['taxonomy_tree'].get('hierarchy') != new_h:
-                    ctx.V('C09:truncate:tree-hierarchy',
-                          f'{got["taxonomy_tree"].get("hierarchy")}; {what}')
-                else:
-                    # structure of the truncated tree
-                    for a_lv, b_lv in zip(new_h[:-1], new_h[1:]):
-                        for node, kids in got['taxonomy_tree'][a_lv].items():
-                            exp = [c for c in model.nodes[b_lv]
-                                   if model.ancestor(b_lv, c, a_lv) == node]
-                            if sorted(kids) != sorted(exp):
-                                ctx.V('C09:truncate:tree-structure',
-                                      f'{a_lv}/{node}: {kids} vs {exp}; '
-                                      f'{what}')
+                ok = check_trunc(src_path, tp, new_h,
+                                 f'truncate {h} -> {new_h}')
+                check_trunc(perm_path, work / 'trunc_p.h5', new_h,
+                            f'truncate {h} -> {new_h} from a file whose '
+                            f'rows were permuted', tag='truncate-permuted')
+                ctx.bump('truncations_from_permuted_rows')
+                if ok and len(new_h) > 1:
+                    # second step: every proper sub-hierarchy of new_h
+                    for r2 in range(1, len(new_h)):
+                        for sub2 in itertools.combinations(
+                                range(len(new_h)), r2):
+                            h2 = [new_h[i] for i in sub2]
+                            check_trunc(
+                                tp, work / 'trunc2.h5', h2,
+                                f'truncate {h} -> {new_h} -> {h2}',
+                                tag='truncate-twice')
+                            ctx.bump('two_step_truncations')
     # merge per-dataset files
     try:
         n_sets = int(rng.integers(2, 4))
